@@ -84,6 +84,8 @@ ALSO = {"C03:MarkAtUnknownRecord": ("C04",),              # a misplaced mark doe
         "C14:BounceRecordRemovedBeforeNoticeQueued": ("C03",),
         "C03:MessageRemovedWithRecipientNeitherDeliveredNorBounced": ("C14",),
         "C15:DaemonStopsMakingProgress": ("C16",),
+        "C03:FailureMarkedBeforeBounceRecordWritten": ("C14",),   # the order that keeps "names every failed recipient" true across a crash
+        "C16:SleepsPastEarliestDueEvent": ("C15",),       # "retried promptly once that time has passed" when the event slept past is a retry time
         # "named, with the failure reason, in a bounce that was itself successfully queued" is part of C03's statement too
         "C14:FailedRecipientHasNoParagraph": ("C03",), "C14:FailedRecipientNotNamed": ("C03",), "C14:FailedRecipientNotNamedInBounce": ("C03",)}
 
